@@ -140,11 +140,11 @@ bool Hist::opRoundTrip(bool cont) {
     log.pre("write"); Outcome so; VF_TRY(so, obj->write(path));
     log.ev("save", "path=" + path.substr(path.rfind('/') + 1) + " shape=" + shapeSig(prev), so); bump("op:save");
     { Snap after = take(*obj); bump("c14_purity_checked"); if (after != prev) { std::vector<std::string> d = diff(prev, after, 4); std::string all; for (size_t i = 0; i < d.size(); ++i) all += d[i] + "; "; log.viol("C14", "save_changed_object", all); prev = after; } }
-    if (so.threw) { if (!wild) log.viol("C01", "save_threw/" + so.cls, so.what); return true; }
+    if (so.threw) { if (!wild && !managedEdited && !offSpec && !fileOffSpec && !beyondInt16 && !analogIncomplete) log.viol("C01", "save_threw/" + so.cls, so.what); else bump("c01_save_refused_off_spec"); return true; }
     std::unique_ptr<ezc3d::c3d> ld; Outcome lo;
     log.pre("load"); VF_TRY(lo, ld.reset(new ezc3d::c3d(path)));
     log.ev("load", "path=" + path.substr(path.rfind('/') + 1), lo); bump("op:load");
-    bool judge = !wild && !gaps && !managedEdited && !offSpec && !fileOffSpec && !caseVariantNames;
+    bool judge = !wild && !gaps && !managedEdited && !offSpec && !fileOffSpec && !caseVariantNames && !beyondInt16;
     if (lo.threw) { if (judge) log.viol("C01", "reload_threw/" + lo.cls, lo.what + " shape " + shapeSig(prev)); else if (!gaps) bump("c01_skipped_wild_reload_threw"); return true; }
     Snap b = take(*ld);
     if (judge) {
@@ -254,9 +254,16 @@ bool Hist::opSecondObject() {
     try {
         ezc3d::c3d other; { Param r("RATE"); r.set(std::vector<float>(1, 50.f)); other.parameter("POINT", r); }
         std::vector<std::string> names; for (size_t i = 0; i < np; ++i) { names.push_back("second_" + std::to_string((unsigned long long)i) + "_" + std::to_string((long long)rng.below(100000))); other.point(names.back()); }
-        Frame f; Points pts; for (size_t i = 0; i < np; ++i) { Point p; p.name(names[i]); p.x((float)i); pts.point(p); } f.add(pts);
-        log.pre("frame", "second_object"); other.frame(f); other.frame(f, 0);
-        if (other.data().nbFrames() != 1 || other.data().frame(0).points().nbPoints() != np) valid = false;
+        size_t ns2 = prev.h.sub + (size_t)rng.range(1, 3);       // a sub-frame count this process has not used for the first object
+        { Param a("RATE"); a.set(std::vector<float>(1, 50.f * (float)ns2)); other.parameter("ANALOG", a); }
+        other.analog("first_channel");
+        Frame f; Points pts; for (size_t i = 0; i < np; ++i) { Point p; p.name(names[i]); p.x((float)i); pts.point(p); }
+        Analogs an; for (size_t s = 0; s < ns2; ++s) { SubFrame sf; Channel ch; ch.name("first_channel"); ch.data((float)s); sf.channel(ch); an.subframe(sf); }
+        f.add(pts, an);
+        log.pre("frame", "second_object"); other.frame(f); other.frame(f, 0); other.frame(f);
+        log.pre("analog", "second_object"); other.analog("late_channel");          // a channel declared on the filled data of the second object
+        if (other.data().nbFrames() != 2 || other.data().frame(0).points().nbPoints() != np) valid = false;
+        for (size_t fr = 0; fr < other.data().nbFrames(); ++fr) { if (other.data().frame(fr).analogs().nbSubframes() != ns2) valid = false; else for (size_t s = 0; s < ns2; ++s) if (other.data().frame(fr).analogs().subframe(s).nbChannels() != 2) valid = false; }
     } catch (const std::exception& e) { oc = classify(e); }
     log.ev("second_object", "points=" + std::to_string((unsigned long long)np), oc); bump("op:second_object");
     if (!wild && oc.threw) log.viol("C07", "frame/valid_refused_on_second_object/" + oc.cls, "an unrelated object with " + std::to_string((unsigned long long)np) + " declared points refused its own matching frame: " + oc.what);
@@ -284,7 +291,7 @@ bool Hist::opManyPoints() {
 // C14 "equal objects save to identical files": rebuild an EQUAL object along a different history (a fresh object that receives the content of the
 // final snapshot in one straight pass) and compare the two saved files byte for byte.  Only when the rebuilt object is snapshot-equal.
 void Hist::rebuildAndCompare() {
-    if (wild || managedEdited || offSpec || fileOffSpec || external || caseVariantNames || analogIncomplete) { bump("c14_rebuild_skipped"); return; }
+    if (wild || managedEdited || offSpec || fileOffSpec || external || caseVariantNames || analogIncomplete || beyondInt16) { bump("c14_rebuild_skipped"); return; }
     const Snap& s = prev;
     for (size_t f = 0; f < s.frames.size(); ++f) if (s.frames[f].empty()) { bump("c14_rebuild_skipped"); return; }
     for (size_t g = 0; g < s.groups.size(); ++g) if (!s.groups[g].desc.empty() || s.groups[g].name.empty()) { bump("c14_rebuild_skipped"); return; }
@@ -388,7 +395,7 @@ void Hist::run() {
         Outcome so; VF_TRY(so, obj->write(b));
         snprintf(b, sizeof b, "%s/final_%ld.json", o.out.c_str(), idx);
         writeFileBytes(b, toJson(prev, true));
-        log.line("FINAL %s gaps=%d managedEdited=%d wild=%d offSpec=%d external=%d incomplete=%d", so.threw ? ("save_threw:" + so.cls).c_str() : "saved", hasGapsS(prev) ? 1 : 0, managedEdited ? 1 : 0, wild ? 1 : 0, (offSpec || fileOffSpec || caseVariantNames) ? 1 : 0, external ? 1 : 0, analogIncomplete ? 1 : 0);
+        log.line("FINAL %s gaps=%d managedEdited=%d wild=%d offSpec=%d external=%d incomplete=%d", so.threw ? ("save_threw:" + so.cls).c_str() : "saved", hasGapsS(prev) ? 1 : 0, managedEdited ? 1 : 0, wild ? 1 : 0, (offSpec || fileOffSpec || caseVariantNames || beyondInt16) ? 1 : 0, external ? 1 : 0, analogIncomplete ? 1 : 0);
     }
     log.pre("destroy"); obj.reset();       // explicit destruction inside the monitored region
     Outcome none; log.ev("destroy", "", none);
